@@ -29,6 +29,7 @@
      DelayOnError    after a failing call the delay metadata becomes Initial, or
                      min(previous * Num/Den, Max); successes untouched
      Retry           (Retry.tla) re-invokes while the error persists, at most cfg.retries times
+     Duplicator      invokes the handler twice (idempotency testing aid); outputs concatenated
 
    LegacyTimeout = TRUE models the defect D8 (the context stays cancelled after
    Timeout, Retry then gives up at once); TLC must reject it.                   *)
@@ -78,6 +79,14 @@ Run(ch, i, st, sc, cfg) ==
                    st  |-> [x.st EXCEPT !.delay = IF @ < 0 THEN cfg.dInit
                                                   ELSE Min((@ * cfg.dNum) \div cfg.dDen, cfg.dMax)]]
              ELSE x
+        [] m = "Duplicator" ->        \* (beyond C19: runs the handler twice, concatenates the outputs, first error wins)
+             LET x == Run(ch, i + 1, st, sc, cfg) IN
+             IF Panicked(x.res) THEN x
+             ELSE IF Failed(x.res) THEN [res |-> [outs |-> << >>, err |-> x.res.err, panic |-> "none"], st |-> x.st]
+             ELSE LET y == Run(ch, i + 1, x.st, sc, cfg) IN
+                  IF Panicked(y.res) THEN y
+                  ELSE IF Failed(y.res) THEN [res |-> [outs |-> << >>, err |-> y.res.err, panic |-> "none"], st |-> y.st]
+                  ELSE [res |-> [outs |-> x.res.outs \o y.res.outs, err |-> "nil", panic |-> "none"], st |-> y.st]
         [] m = "Retry" ->
              LET x == Run(ch, i + 1, st, sc, cfg) IN
              IF ~Failed(x.res) THEN x
